@@ -20,10 +20,15 @@ Record c10_checks := mk_checks {
   ck_jsclose : bool;   (* writeJSONStreamFile: throws when fclose fails *)
   ck_jclose : bool;    (* QPDFJob::writeJSON: explicit finish + checked fclose before FileCloser's destructor *)
   ck_ostream : bool;   (* Pl_OStream::finish: throws when the stream is not good after flush *)
-  ck_stdout : bool     (* realmain: fflush(stdout)/ferror(stdout) checked before the exit status is chosen *)
+  ck_stdout : bool;    (* realmain: fflush(stdout)/ferror(stdout) checked before the exit status is chosen *)
+  ck_popper : bool     (* QPDFWriter's Pl_stack::Popper destructor does not let finish()'s exception escape
+                          (proposed_fixes/D2b_no_throw_in_popper.diff); without it a throwing finish() inside the
+                          destructor is std::terminate *)
 }.
-Definition c10_unrepaired := mk_checks false false false false false false.
-Definition c10_repaired := mk_checks true true true true true true.
+Definition c10_unrepaired := mk_checks false false false false false false false.
+(* /repo at c4309d60: D2 repaired, the Popper destructor can still throw *)
+Definition c10_repaired_d2 := mk_checks true true true true true true false.
+Definition c10_repaired := mk_checks true true true true true true true.
 
 (* what the fault oracle can do at the n-th output operation *)
 Inductive c10_fact :=
@@ -60,7 +65,8 @@ Record c10_world := mk_world {
   cw_n : nat;                    (* output operations so far *)
   cw_trace : list c10_ev;        (* most recent first *)
   cw_diag : list c10_diag;       (* stderr, most recent first *)
-  cw_cout_bad : bool             (* std::cout has badbit *)
+  cw_cout_bad : bool;            (* std::cout has badbit *)
+  cw_aborted : bool              (* std::terminate was called: SIGABRT, exit status 134, no destructor, no stdio flush *)
 }.
 
 Record c10_env := mk_env {
@@ -68,7 +74,12 @@ Record c10_env := mk_env {
   en_fault : nat -> c10_fact;         (* fault oracle, by operation number (1-based) *)
   en_initcap : option nat;            (* RLIMIT_FSIZE: capacity of every file the run creates *)
   en_exit_rounds : nat;               (* how many times the runtime flushes cout and wcout at exit (libstdc++: ios_base::Init) *)
-  en_ck : c10_checks }.
+  en_ck : c10_checks;
+  (* the job, as far as the sinks see it *)
+  en_md5_pops : nat;                  (* --deterministic-id: how many Popper destructors call finish() on the file sink
+                                         (the MD5 pipeline of writeStandard) before Writer::write's own finish *)
+  en_glitch : option nat              (* Some k: the (k+1)-th write(2) on each file the run creates fails once *)
+}.
 
 Inductive c10_res (A : Type) :=
 | ROk (a : A) (w : c10_world)
@@ -97,12 +108,13 @@ Fixpoint c10_remove (d : list (nat * sfile)) (name : nat) : list (nat * sfile) :
 Definition c10_bind_name (d : list (nat * sfile)) (name : nat) (f : sfile) := (name, f) :: c10_remove d name.
 
 Definition c10_set_dir (w : c10_world) (d : list (nat * sfile)) :=
-  mk_world d (cw_n w) (cw_trace w) (cw_diag w) (cw_cout_bad w).
+  mk_world d (cw_n w) (cw_trace w) (cw_diag w) (cw_cout_bad w) (cw_aborted w).
 Definition c10_put (w : c10_world) (name : nat) (f : sfile) := c10_set_dir w (c10_bind_name (cw_dir w) name f).
-Definition c10_tick (w : c10_world) := mk_world (cw_dir w) (S (cw_n w)) (cw_trace w) (cw_diag w) (cw_cout_bad w).
-Definition c10_log (w : c10_world) (e : c10_ev) := mk_world (cw_dir w) (cw_n w) (e :: cw_trace w) (cw_diag w) (cw_cout_bad w).
-Definition c10_say (w : c10_world) (d : c10_diag) := mk_world (cw_dir w) (cw_n w) (cw_trace w) (d :: cw_diag w) (cw_cout_bad w).
-Definition c10_set_bad (w : c10_world) := mk_world (cw_dir w) (cw_n w) (cw_trace w) (cw_diag w) true.
+Definition c10_tick (w : c10_world) := mk_world (cw_dir w) (S (cw_n w)) (cw_trace w) (cw_diag w) (cw_cout_bad w) (cw_aborted w).
+Definition c10_log (w : c10_world) (e : c10_ev) := mk_world (cw_dir w) (cw_n w) (e :: cw_trace w) (cw_diag w) (cw_cout_bad w) (cw_aborted w).
+Definition c10_say (w : c10_world) (d : c10_diag) := mk_world (cw_dir w) (cw_n w) (cw_trace w) (d :: cw_diag w) (cw_cout_bad w) (cw_aborted w).
+Definition c10_set_bad (w : c10_world) := mk_world (cw_dir w) (cw_n w) (cw_trace w) (cw_diag w) true (cw_aborted w).
+Definition c10_set_aborted (w : c10_world) := mk_world (cw_dir w) (cw_n w) (cw_trace w) (cw_diag w) (cw_cout_bad w) true.
 
 (* the fault is applied to the stream the operation is about, before the operation *)
 Definition c10_apply_fault (fa : c10_fact) (f : sfile) : sfile :=
@@ -143,7 +155,7 @@ Definition c10_fopen (en : c10_env) (name : nat) (w : c10_world) : c10_res bool 
   match fa with
   | FaFail => ROk false (c10_log w1 (EvOpen name false))
   | _ =>
-    let f := c10_apply_fault fa (sio_new (en_initcap en) false) in
+    let f := c10_apply_fault fa (sio_new_glitch (en_initcap en) false (en_glitch en)) in
     let w2 := c10_log (c10_put w1 name f) (EvOpen name true) in
     if c10_is_killa fa then RDead w2 else ROk true w2
   end.
@@ -205,6 +217,36 @@ Definition c10_pl_finish (en : c10_env) (name : nat) (w : c10_world) : c10_res u
     if ck_finish (en_ck en) && (negb ok || c10_ferror w1 name) then RExc (Exn EcFlush name) w1
     else ROk tt w1).
 
+(* Pl_stack::Popper::~Popper -> Pl_stack::pop -> top->finish(), which reaches Pl_StdioFile::finish through the MD5
+   pipeline.  A destructor is noexcept: if finish() throws there, std::terminate is called (pinned tree: finish never
+   throws; c4309d60: it can; D2b: the destructor swallows it, the sticky error indicator is still there for
+   Writer::write's own finish) *)
+Definition c10_pop_finish (en : c10_env) (name : nat) (w : c10_world) : c10_res unit :=
+  c10_bind (c10_fflush en name w) (fun ok w1 =>
+    if ck_finish (en_ck en) && (negb ok || c10_ferror w1 name) then
+      if ck_popper (en_ck en) then ROk tt w1 else RDead (c10_set_aborted w1)
+    else ROk tt w1).
+Fixpoint c10_pop_finish_n (n : nat) (en : c10_env) (name : nat) (w : c10_world) : c10_res unit :=
+  match n with
+  | O => ROk tt w
+  | S k => c10_bind (c10_pop_finish en name w) (fun _ w1 => c10_pop_finish_n k en name w1)
+  end.
+
+(* writeStandard's pp_md5 goes out of scope when the function returns AND when an exception (Pl_StdioFile::write's)
+   unwinds through it: the destructor runs in both cases; an exception in flight keeps propagating unless the
+   destructor itself terminates the process *)
+Definition c10_with_pops (en : c10_env) (name : nat) (r : c10_res unit) : c10_res unit :=
+  match r with
+  | ROk _ w => c10_pop_finish_n (en_md5_pops en) en name w
+  | RExc e w =>
+    match c10_pop_finish_n (en_md5_pops en) en name w with
+    | ROk _ w' => RExc e w'
+    | RExc _ w' => RExc e w'
+    | RDead w' => RDead w'
+    end
+  | RDead w => RDead w
+  end.
+
 (* a destructor that closes the stream if it is still open, result ignored; an exception in flight
    keeps propagating; a kill inside the destructor is a kill *)
 Definition c10_dtor_close {A} (en : c10_env) (name : nat) (r : c10_res A) : c10_res A :=
@@ -223,7 +265,7 @@ Definition c10_writer_file (en : c10_env) (name : nat) (chunks : list (list N)) 
   c10_bind (c10_fopen en name w) (fun ok w1 =>
     if negb ok then RExc (Exn EcOpen name) w1 else
     c10_dtor_close en name
-      (c10_bind (c10_pl_write_chunks en name chunks w1) (fun _ w2 =>
+      (c10_bind (c10_with_pops en name (c10_pl_write_chunks en name chunks w1)) (fun _ w2 =>
        c10_bind (c10_pl_finish en name w2) (fun _ w3 =>
        c10_bind (c10_fclose en name w3) (fun okc w4 =>
          if ck_wclose (en_ck en) && negb okc then RExc (Exn EcClose name) w4 else ROk tt w4))))).
@@ -394,7 +436,7 @@ Definition c10_initial (en : c10_env) (sc : c10_scen) (orig : list N) : c10_worl
             | ScReplace inp _ _ _ => [(inp, sio_static orig)]
             | _ => []
             end in
-  mk_world d0 0 [] [] false.
+  mk_world d0 0 [] [] false false.
 
 Definition c10_closing_ties (sc : c10_scen) : nat := match sc with ScStdout _ _ n _ => n | _ => 0 end.
 (* realmain's catch: std::cerr << whoami << ": " << e.what() << '\n' : four insertions *)
@@ -429,3 +471,6 @@ Definition c10_file_of (r : c10_result) (name : nat) : option (list N) :=
   | None => None
   end.
 Definition c10_no_fault : nat -> c10_fact := fun _ => FaNone.
+(* the exit status a parent process sees: 134 after std::terminate, none after SIGKILL *)
+Definition c10_exit_status (r : c10_result) : option nat :=
+  if cw_aborted (rs_world r) then Some 134 else rs_exit r.
